@@ -19,7 +19,7 @@ CONFIG = {
     "level": "proof",
     "n": {"quick": 800, "thorough": 20000},
     "shard": 120,
-    "extra_proof_files": ["PSga", "PMeta", "PLink"],
+    "extra_proof_files": ["PSga", "PMeta", "PLink", "TagOrder"],
     "rule": "designed cases (boundaries End-1/End/Start, truncated group with and without successor, Min/MaxNanoTime and the zero time, "
             "deleted group, altered shard duration, too-old point alone and in company, many shards) then seeded generation: a metadata history "
             "of 0-6 real meta.Data operations (CreateShardGroup, altered ShardGroupDuration, TruncateShardGroups, DeleteShardGroup; 12% of "
